@@ -131,10 +131,27 @@ func c11Gen(rt *rapid.T) c11Prog {
 					B: gPick(rt, []string{"valid", "valid", "valid", "expired", "expiring", "serial", "nologin", "badsig", "short", "foreignkey", "levelup", "rootclaim"}, "variant")}
 			} else if gPct(rt, 60) {
 				op = wOp{K: "login", S: 1, A: "basic", B: gPick(rt, []string{"alice1:" + c11Password, "alice1:wrongpass", "ALICE1:" + c11Password, "nobody:" + c11Password, "alice2:" + c11Password, "alice1:"}, "basic")}
+			} else if gPct(rt, 50) {
+				// an authenticator which reports the account's state itself and may ask for a second stage
+				ru := gInt(rt, 0, 1, "ru")
+				op = wOp{K: "login", S: 1, A: wRestName, B: fmt.Sprintf("%d:%s:%s", ru, gPick(rt, []string{"ok", "ok", "susp", "del"}, "rstate"), gPick(rt, []string{"0", "0", "1"}, "rch"))}
 			} else {
 				op = wOp{K: "login", S: 1, A: gPick(rt, []string{"nosuch", "", "anon", "code"}, "scheme"), B: "x"}
 			}
+			if op.A == "basic" && strings.HasPrefix(op.B, "alice2:") && gPct(rt, 60) {
+				// the login answers the pending confirmation request, with the right or a wrong code
+				op.X = []string{wValidatorName + ":|" + gPick(rt, []string{"000000", "000000", wValidatorCode, "12345", ""}, "lcode")}
+			}
 			p.Ops = append(p.Ops, op)
+			if op.A == wRestName && strings.HasSuffix(op.B, ":1") {
+				// between the stages nothing is allowed yet; then (mostly) the challenge is answered
+				if gPct(rt, 60) {
+					p.Ops = append(p.Ops, wOp{K: "get", S: 1, T: "me", A: "desc"})
+				}
+				if gPct(rt, 70) {
+					p.Ops = append(p.Ops, wOp{K: "login", S: 1, A: wRestName, B: op.B + ":resp"})
+				}
+			}
 			if op.A == "token" && op.B == "nologin" && gPct(rt, 60) {
 				// the reply to a restricted token carries a token again: it is as restricted as the first
 				p.Ops = append(p.Ops, wOp{K: "login", S: 1, A: "token", B: "returned"})
@@ -194,6 +211,8 @@ type c11Obs struct {
 	refused  int
 	served   int
 	reached  bool
+	cred2Done bool // user 2 has confirmed the address (a login carried the right code)
+	cred2Fails int // wrong codes so far
 	retTok   bool // a login used the token handed out by an earlier login reply
 	retRestricted bool // the token handed out last answered a login with a restricted (no-login) token
 	unknown  bool // the session created an account and logged in as it: the model does not follow further
@@ -210,7 +229,10 @@ func (o *c11Obs) doSetup(w *wWorld) {
 		for _, u := range []int{0, 1} {
 			store.Users.UpsertCred(&types.Credential{User: w.users[u].uid.String(), Method: wValidatorName, Value: fmt.Sprintf("u%d@example.com", u), Done: true})
 		}
+		// user 2's address is waiting for its confirmation code
+		store.Users.UpsertCred(&types.Credential{User: w.users[2].uid.String(), Method: wValidatorName, Value: "u2@" + wValidatorDomain, Resp: wValidatorCode})
 	}
+	wUseRestAuth()
 	basic := store.Store.GetAuthHandler("basic")
 	if !basic.IsInitialized() {
 		if err := basic.Init(json.RawMessage(`{"add_to_tags":false,"min_login_length":3,"min_password_length":3}`), "basic"); err != nil {
@@ -244,7 +266,7 @@ func (o *c11Obs) userOK(u int) (ok bool, needCred bool) {
 	if u == 2 && o.p.State2 != "" {
 		return false, false
 	}
-	if o.p.Validators && u == 2 {
+	if o.p.Validators && u == 2 && !o.cred2Done {
 		return false, true
 	}
 	return true, false
@@ -391,11 +413,27 @@ func (o *c11Obs) After(w *wWorld, st *wStep) *kit.Viol {
 			if okUser, _ := o.userOK(st.Op.U); okUser && sameAsValid {
 				want = st.Op.U
 			}
+		case wRestName:
+			// authenticates iff the authenticator reports the account as fine and no challenge is outstanding
+			if f := strings.Split(st.Op.B, ":"); len(f) >= 3 && f[1] == "ok" && (f[2] == "0" || len(f) >= 4) {
+				want = wAtoi(f[0])
+			}
 		case "basic":
 			login := strings.SplitN(st.Op.B, ":", 2)
 			if len(login) == 2 && login[1] == c11Password {
 				for u, name := range map[int]string{1: "alice1", 2: "alice2"} {
-					if okUser, _ := o.userOK(u); okUser && strings.EqualFold(login[0], name) {
+					okUser, needCred := o.userOK(u)
+					if needCred && strings.EqualFold(login[0], name) && len(st.Op.X) > 0 {
+						switch {
+						case strings.HasSuffix(st.Op.X[0], "|"+wValidatorCode) && o.cred2Fails <= wValidatorMaxRetries:
+							// the login carries the right confirmation code: the address is validated on the spot
+							okUser = true
+							o.cred2Done = true
+						case !strings.HasSuffix(st.Op.X[0], "|"):
+							o.cred2Fails++ // a wrong code: counted by the validator
+						}
+					}
+					if okUser && strings.EqualFold(login[0], name) {
 						want = u
 					}
 				}
